@@ -243,6 +243,19 @@ def behave(node, kwargs, attempt, run):
             if 'falsy_ad' in plan:
                 return ('next', plan['falsy_ad'][0])       # a falsy payload is a legitimate payload
             return ('next', ('AD', node['id'], attempt + 1, run))
+    elif kind == 'dest' and 'ad_script' in plan:
+        # scripted destination: what it does depends on whether the start node saw additional_data in this iteration and
+        # on how often it has been invoked with these arguments ('next' = payload tuple, 'next_none' = payload None)
+        if plan['start'] == node['id']:      # start node == destination: its own keyword
+            key = '1' if kwargs.get('additional_data') is not None else '0'
+        else:
+            key = '1' if find_ad(kwargs, plan['start']) is not None else '0'
+        seq = plan['ad_script'].get(key, [])
+        act = seq[attempt] if attempt < len(seq) else 'ok'
+        if act == 'next':
+            return ('next', ('AD', node['id'], attempt + 1, run))
+        if act == 'next_none':
+            return ('next', None)
     elif kind == 'dest':
         want = plan.get('want_iter', 0)
         if isinstance(want, dict):
